@@ -3,7 +3,8 @@
    with Rib/Model.v in Server/Inst.v).  One scripted message is handled
    atomically.  No proofs in this file. *)
 From Coq Require Import List NArith Bool.
-From GV.Base Require Import Alist U128.
+From GV.Base Require Import Alist U128 Op.
+Export Op.
 Import ListNotations.
 Open Scope N_scope.
 
@@ -30,7 +31,6 @@ Definition cp_of (p : pmsg) : cparams :=
 Record sess := { s_params : cparams; s_set : bool; s_last : option u128; s_gotmsg : bool }.
 Definition sess0 := {| s_params := cp_default; s_set := false; s_last := None; s_gotmsg := false |}.
 
-Inductive okind := ADD | REPLACE | DELETE | OTHERKIND.
 Inductive astatus := FAILED | RIB_PROGRAMMED | FIB_PROGRAMMED.
 
 (* gRPC status codes and detail reasons that the server uses *)
@@ -77,7 +77,7 @@ Definition check_election (op_elec : option u128) (master : option cid) (cur : o
 Section Server.
   Variable E : Type.                 (* AFT entry payload of an operation *)
   Variable R : Type.                 (* the RIB *)
-  Record op := { op_id : N; op_ni : niname; op_kind : okind; op_elec : option u128; op_entry : E }.
+  Notation op := (Op.op E).
   (* RIB interface: (new rib, oks, fails, fatal?) *)
   Variable rib_has_ni : R -> niname -> bool.
   Variable rib_add : R -> niname -> op -> R * (list N * list N * bool).
@@ -242,5 +242,4 @@ Section Server.
     match h with [] => [] | i :: tl => let '(s', o) := step s i in o :: trace s' tl end.
 End Server.
 
-Arguments op_id {E}. Arguments op_ni {E}. Arguments op_kind {E}. Arguments op_elec {E}. Arguments op_entry {E}.
 Arguments ss {R}. Arguments cur {R}. Arguments master {R}. Arguments rib {R}.
